@@ -147,7 +147,12 @@ def detect(pid, x, props):
             rc, out = sh([os.path.join(VERIF, "check"), p, "--tier", "quick"], cwd=VERIF)
             viol = [l for l in out.splitlines() if l.startswith("VIOLATION")]
             sigs = [l.strip() for l in out.splitlines() if l.strip().startswith("signature:")]
-            results[p] = {"exit": rc, "violations": viol, "signatures": sigs[:6], "tail": out[-600:] if rc not in (0, 1) else ""}
+            capped = None
+            try:
+                capped = json.load(open(os.path.join(VERIF, "evidence", p + ".json")))["coverage"].get("capped")
+            except Exception:
+                pass
+            results[p] = {"exit": rc, "violations": viol, "signatures": sigs[:6], "capped": capped, "tail": out[-600:] if rc not in (0, 1) else ""}
     finally:
         sh("git reset -q --hard HEAD", cwd="/repo")
     print(json.dumps(results, indent=1))
